@@ -174,7 +174,7 @@ def run(ctx):
     probes = [{"id": k, "src": src, "experimental": exp, "ops": ["probe"], "seed": f"probe{i}", "timeout": 120}
               for k, (i, src, exp) in enumerate((i, src, exp) for i, src in enumerate(diag_probes.PROBES) for exp in (False, True))]
     # VERIF_C02_MUTANTS overrides the number of random mutants (used for seeded-defect experiments on a loaded machine)
-    nmut = int(os.environ.get("VERIF_C02_MUTANTS", "") or ctx.pick(1500, 20000))
+    nmut = int(os.environ.get("VERIF_C02_MUTANTS", "") or ctx.pick(1500, 10000))
     jobs = probes + make_mutants(ctx.seed, nmut)
     for k, j in enumerate(jobs):
         j["id"] = k
